@@ -59,6 +59,8 @@ def sort_case(draw, tier):
         "via_config": draw(st.booleans()),
         # optionally the very first pass hits a transient source fault at this data row; "every pass" includes the retry
         "fail_first": draw(st.one_of(st.none(), st.none(), st.integers(0, max(0, n - 1)))) if n else None,
+        # the input may itself be a sorted petl view (by the first field, either direction) - sort of a sort
+        "upstream": draw(st.sampled_from(["none", "none", "none", "sortfirst", "sortfirst-rev", "sortsame"])),
     }
 
 
@@ -71,7 +73,19 @@ def check_sort(case, ctx):
     bs, cache = case["buffersize"], case["cache"]
     n = len(tbl) - 1
     src = codec.snapshot(tbl)
-    exp = R.ref_sort(tbl, key, reverse)
+    up = case.get("upstream", "none")
+    if case.get("fail_first") is not None:
+        up = "none"
+    inner = tbl
+    # the inner sort names its key the way the outer key spec does (first element: same field name or index)
+    k0 = 0 if key is None else (key[0] if isinstance(key, (list, tuple)) else key)
+    if up == "sortfirst":
+        inner = [list(r) for r in R.ref_sort(tbl, k0)]
+    elif up == "sortfirst-rev":
+        inner = [list(r) for r in R.ref_sort(tbl, k0, True)]
+    elif up == "sortsame":
+        inner = [list(r) for r in R.ref_sort(tbl, key, reverse)]
+    exp = R.ref_sort(inner, key, reverse)
     idx = _key_indices(tbl[0], key)
     keys = [R.keyof(r, idx) for r in exp[1:]]
     dup = any(R.ref_cmp(a, b) == 0 for a, b in zip(keys, keys[1:]))
@@ -104,7 +118,15 @@ def check_sort(case, ctx):
                 csrc.fail_at = None
                 ctx.label("retry-after-failed-pass")
             else:
-                view = etl.sort(src, key, **kw)
+                insrc = src
+                if up == "sortfirst":
+                    insrc = etl.sort(src, k0)
+                elif up == "sortfirst-rev":
+                    insrc = etl.sort(src, k0, reverse=True)
+                elif up == "sortsame":
+                    insrc = etl.sort(src, key, reverse=reverse)
+                ctx.label("upstream:" + up)
+                view = etl.sort(insrc, key, **kw)
             outs = [[tuple(r) for r in view] for _ in range(case["passes"])]
         except Exception as e:
             return exc_fail("sort", e)
